@@ -169,6 +169,14 @@ type harness struct {
 	ver    uint64
 }
 
+// oracleFor files a comparison class under its oracle: duplicates are one finding whatever scenario sees them.
+func oracleFor(cls string) string {
+	if cls == "span-returned-twice" {
+		return "no-duplicate"
+	}
+	return "whole-trace"
+}
+
 func dayOf(ms int64) string { return time.UnixMilli(ms).In(time.Local).Format("20060102") }
 
 // write sends one batch; false = stop the run.
@@ -307,7 +315,7 @@ func runNoSampler(e *simcore.Env, tp *simcore.Tape) {
 					}
 				}
 				if cls, msg := m.CompareWhole(id, got[id]); cls != "" {
-					e.Fail("whole-trace", cls, "%s: query by trace id: %s%s", where, msg, h.diagnoseByID(id, lo, hi))
+					e.Fail(oracleFor(cls), cls, "%s: query by trace id: %s%s", where, msg, h.diagnoseByID(id, lo, hi))
 					return
 				}
 			}
@@ -319,7 +327,10 @@ func runNoSampler(e *simcore.Env, tp *simcore.Tape) {
 				}
 				for _, id := range m.IDs {
 					if cls, msg := m.CompareWhole(id, got[id]); cls != "" {
-						e.Fail("whole-trace", "in-list:"+cls, "%s: query trace_id IN (all %d ids): %s", where, len(m.IDs), msg)
+						if cls != "span-returned-twice" {
+							cls = "in-list:" + cls
+						}
+						e.Fail(oracleFor(cls), cls, "%s: query trace_id IN (all %d ids): %s", where, len(m.IDs), msg)
 						return
 					}
 				}
@@ -860,7 +871,7 @@ func runSampler(e *simcore.Env, tp *simcore.Tape, gated bool) {
 					for _, w := range r.Wids {
 						seen[w]++
 						if seen[w] > 1 {
-							e.Fail("all-or-none", "span-returned-twice", "%s: trace %q: span w%d returned more than once (%v)", where, id, w, r.Wids)
+							e.Fail("no-duplicate", "span-returned-twice", "%s: query trace_id IN (...): trace %q: span w%d returned more than once (%v)%s", where, id, w, r.Wids, h.diagnoseByID(id, lo, hi))
 							return
 						}
 					}
@@ -928,24 +939,32 @@ func runSampler(e *simcore.Env, tp *simcore.Tape, gated bool) {
 			}
 		}
 
-		// settle releases held goroutines: per round all those waiting at one tape-chosen site (value 0 = the
+		// settle releases held goroutines: per round all those waiting at one tape-chosen site (choice 0 = the
 		// first site in lexical order: dispatcher before workers before merge attempts, the engine's usual order).
+		// The choices are drawn up front so that the tape is consumed identically whatever is being held; the
+		// canonical history records the choices, the sites they resolved to are diagnostics (the goroutines
+		// that are not held are scheduled by the Go runtime, not by the tape).
 		settle := func(rounds int) {
 			if !gated {
 				return
 			}
+			choices := make([]int, rounds)
+			for i := range choices {
+				choices[i] = tp.Choose(len(gateSites))
+			}
+			e.Event("release held goroutines: %d rounds, choices %v", rounds, choices)
 			for i := 0; i < rounds; i++ {
 				synctest.Wait()
 				parked := simcore.ParkedList()
 				if len(parked) == 0 {
-					return
+					break
 				}
 				seenSite := map[string]bool{}
 				for _, p := range parked {
 					seenSite[p.Site] = true
 				}
 				sites := simcore.SortedKeys(seenSite)
-				site := sites[tp.Choose(len(sites))]
+				site := sites[choices[i]%len(sites)]
 				k := 0
 				for _, p := range parked {
 					if p.Site == site {
@@ -957,8 +976,7 @@ func runSampler(e *simcore.Env, tp *simcore.Tape, gated bool) {
 				if site != sites[0] {
 					e.Probe("reach.released_out_of_usual_order")
 				}
-				e.Event("release goroutines held at %s", site)
-				e.Note("released %d at %s, %d held in total", k, site, len(parked))
+				e.Note("released %d at %s, %d held in total at %v", k, site, len(parked), sites)
 			}
 			synctest.Wait()
 		}
@@ -1007,7 +1025,7 @@ func runSampler(e *simcore.Env, tp *simcore.Tape, gated bool) {
 		}
 		for i, k := 0, tp.Range(1, 5); i < k && !e.Failed(); i++ {
 			h.advance(advances[tp.Choose(len(advances))])
-			settle(40)
+			settle(24)
 			check("final")
 		}
 		h.reachProbes()
